@@ -184,6 +184,8 @@ def run(tier, chk):
     # the same meaning must come out when identical sub-trees are one shared Python object (as user code and the lifter build them)
     td = sharing_trees(rnd, 2500 if quick else 30000)
     run_space(chk, td, rnd, 8 if quick else 16, [], 'd:trees with repeated sub-trees, built as DAGs', shared=True)
+    th = prefix_twin_trees(rnd, 1500 if quick else 15000)
+    run_space(chk, th, rnd, 8 if quick else 16, [], 'h:operands that are n-ary operators with prefix-related operand lists')
     # concatenations with constants typed wider than their slot, and inputs taken from the simplifier's own output language
     tf = loose_compose_trees(rnd, 2500 if quick else 30000)
     run_space(chk, tf, rnd, 8 if quick else 16, [], 'f:concatenations with constants wider than their slot')
@@ -327,6 +329,35 @@ def loose_compose_trees(rnd, n):
         t = {'k': 'compose', 'w': w, 'a': args, 's': [[lo, hi] for lo, hi in slots]}
         if rnd.random() < 0.3:
             t = {'k': 'op', 'w': w, 'o': rnd.choice(['+', '^', '&', '|']), 'u': 0, 'a': [t, {'k': 'id', 'w': w, 'n': 'z' + str(w)}]}
+        out.append(t)
+    return out
+
+
+def prefix_twin_trees(rnd, n):
+    """two operands of one node that are n-ary operators of the same kind, the operand list of one being a prefix (or a
+    permutation of a prefix) of the other's: near-equal operands in front of the rules x ^ x, x + (-x), x | x, x & x, x == x"""
+    AC = ['+', '*', '^', '&', '|']
+    out = []
+    while len(out) < n:
+        w = rnd.choice([8, 8, 32, 16])
+        def leaf():
+            if rnd.random() < 0.3:
+                return {'k': 'int', 'w': w, 'v': core.limbs(rnd.choice(irlib.boundary(w)), w)}
+            return {'k': 'id', 'w': w, 'n': rnd.choice('xyz') + str(w)}
+        o = rnd.choice(AC)
+        L = [leaf() for _ in range(rnd.choice([2, 2, 3]))]
+        extra = leaf()
+        A = {'k': 'op', 'w': w, 'o': o, 'u': 0, 'a': L}
+        L2 = list(L)
+        if rnd.random() < 0.3:
+            rnd.shuffle(L2)
+        B = {'k': 'op', 'w': w, 'o': o, 'u': 0, 'a': L2 + [extra]}
+        r = rnd.choice(['^', '^', '-', '|', '&', '==', 'addneg', '+'])
+        pair = [A, B] if rnd.random() < 0.5 else [B, A]
+        if r == 'addneg':
+            t = {'k': 'op', 'w': w, 'o': '+', 'u': 0, 'a': [pair[0], {'k': 'op', 'w': w, 'o': '-', 'u': 0, 'a': [pair[1]]}]}
+        else:
+            t = {'k': 'op', 'w': w, 'o': r, 'u': 0, 'a': pair}
         out.append(t)
     return out
 
